@@ -23,6 +23,17 @@ MON = {
 }
 ALWAYS = {"HandlerDidNotReturn"}
 
+SCHEMES = ["pedersen-bls-chained", "pedersen-bls-unchained", "bls-unchained-g1-rfc9380", "bls-unchained-on-g1", "bls-bn254-unchained-on-g1"]
+
+
+def schemes_for(ctx, k=1):
+    """default (chained) scheme plus k others chosen by seed in quick; all five in thorough."""
+    if not ctx.quick:
+        return list(SCHEMES)
+    rng = random.Random(ctx.seed)
+    return [SCHEMES[0]] + rng.sample(SCHEMES[1:], k)
+
+
 ADV_KINDS = ["valid", "wrongKey", "wrongRound", "wrongPrev", "otherPrev", "truncated", "bitflip", "nonMember", "replayOwn", "empty"]
 
 
@@ -297,6 +308,9 @@ def run(ctx, prop, extra_scripts=None, scheme=None):
         if a["mon"] in mons:
             ctx.alarm({"stage": "net", "mon": a["mon"], "scenario": scen_class(a["scenario"]), "detail": a["detail"]},
                       "beacon network: monitor %s failed at trace line %s (%s) in scenario %s [%s]" % (a["mon"], a["line"], a["detail"], a["scenario"], a["ev"]))
+    others = sorted({(a["mon"], a["detail"]) for a in alarms if a["mon"] not in mons and a["mon"] != "Conformance"})
+    if others:
+        ctx.notes.append("monitors of other properties that fired on these traces (decided by their own checks): %s" % others)
     if drift:
         ctx.inconclusive.append("beacon network: %d conformance differences vs Beacon.tla behaviours (model drift), first: %s" % (len(drift), drift[0]))
     if count_lines(trace, "SettleTimeout"):
